@@ -11,3 +11,4 @@ open Cst.C13
 #print axioms tao_go
 #print axioms tao_total
 #print axioms tao_spec
+#print axioms tao_complete
